@@ -288,6 +288,16 @@ pub mod sup {
         *v ^ 0x80
     }
 
+    // ---- library types a handler might recognise by name ----
+    impl<T> Sym for core::marker::PhantomData<T> {
+        fn sym() -> Self {
+            core::marker::PhantomData
+        }
+    }
+    pub fn ph_never<T>(_a: &T, _b: &T) -> bool {
+        false
+    }
+
     // ---- a field type whose *inherent* methods are named like the trait methods and misbehave: generated code must reach the
     //      trait impls (`::core::clone::Clone::clone(x)`), never `x.clone()` ----
     pub struct Inh(pub u8);
@@ -301,7 +311,9 @@ pub mod sup {
         pub fn hash<HH>(&self, _s: &mut HH) {}
         pub fn fmt(&self, f: &mut core::fmt::Formatter<'_>) -> core::fmt::Result { f.write_str("WRONG") }
         pub fn default() -> Inh { Inh(0xdd) }
+        pub fn into(self) -> u16 { 0xbad }
     }
+    impl From<Inh> for u16 { fn from(i: Inh) -> u16 { i.0 as u16 + 256 } }
     impl Clone for Inh { fn clone(&self) -> Self { Inh(self.0) } }
     impl Copy for Inh {}
     impl PartialEq for Inh { fn eq(&self, o: &Self) -> bool { self.0 == o.0 } }
@@ -521,7 +533,7 @@ pub mod dbg {
     #[cfg(kani)]
     use core::fmt::FormattingOptions;
 
-    pub const BUF_CAP: usize = 128;
+    pub const BUF_CAP: usize = 256;
     pub struct Buf {
         pub b: [u8; BUF_CAP],
         pub n: usize,
@@ -586,13 +598,13 @@ pub mod dbg {
     /// Field value type: Debug prints the fixed token `v<ID>` and logs (ID, value).
     #[derive(Clone, Copy)]
     pub struct Val<const ID: u8>(pub u8);
-    const TOK: [&str; 8] = ["v0", "v1", "v2", "v3", "v4", "v5", "v6", "v7"];
-    const TOK_ALT: [&str; 8] = ["V0", "V1", "V2", "V3", "V4", "V5", "V6", "V7"];
+    const TOK: [&str; 16] = ["v0", "v1", "v2", "v3", "v4", "v5", "v6", "v7", "v8", "v9", "va", "vb", "vc", "vd", "ve", "vf"];
+    const TOK_ALT: [&str; 16] = ["V0", "V1", "V2", "V3", "V4", "V5", "V6", "V7", "V8", "V9", "Va", "Vb", "Vc", "Vd", "Ve", "Vf"];
     impl<const ID: u8> Debug for Val<ID> {
         fn fmt(&self, f: &mut Formatter<'_>) -> fmt::Result {
             log_push(ID, self.0);
             // the token depends on the formatter's alternate flag: a value re-formatted with a fresh `{:?}` inside `{:#?}` shows
-            f.write_str(if f.alternate() { TOK_ALT[(ID & 7) as usize] } else { TOK[(ID & 7) as usize] })
+            f.write_str(if f.alternate() { TOK_ALT[(ID & 15) as usize] } else { TOK[(ID & 15) as usize] })
         }
     }
     impl<const ID: u8> Sym for Val<ID> {
